@@ -21,6 +21,7 @@ RULE = (
     "those of its own file; /metadata children == the records present; root attrs == volume "
     "attrs + reference link; every per-line variable is a coordinate and no 'coordinates' "
     "attribute is left anywhere. Non-trivial: >= 2 images."
+    " Stage 'in-place-pairs': two products with the same file names at the same root, one after the other, both judged."
 )
 ASSUMPTIONS = ["frozen layout / exposure tables; image order = numeric order of the ProductFileName keys"]
 BUDGET = {"quick": 120, "thorough": 1500}
